@@ -39,10 +39,7 @@ func VerifC05_LoadMarshal() {
 	mode := vrt.Param("MODE")
 	b := vrt.Bytes(n)
 	vrt.Assume(vrt.TWellFormed(b, t, verifDepth))
-	kids, _ := vrt.TChildren(b, t, verifDepth)
-	if t == vrt.TSTRUCT {
-		verifDistinctIDs(kids)
-	}
+	verifDistinctDeep(b, t, verifDepth)
 	orig := verifSnapshot(b)
 	oa, ob := verifLowerThresholds()
 	defer verifRestoreThresholds(oa, ob)
@@ -99,10 +96,7 @@ func VerifC05_Reuse() {
 	b1 := verifFirstLoad(t, vrt.Param("P1"))
 	b2 := vrt.Bytes(vrt.Param("N"))
 	vrt.Assume(vrt.TWellFormed(b2, t, verifDepth))
-	if t == vrt.TSTRUCT {
-		k2, _ := vrt.TChildren(b2, t, verifDepth)
-		verifDistinctIDs(k2)
-	}
+	verifDistinctDeep(b2, t, verifDepth)
 	orig := verifSnapshot(b2)
 	oa, ob := verifLowerThresholds()
 	defer verifRestoreThresholds(oa, ob)
